@@ -28,6 +28,9 @@ def _leaf(fn):
 
 
 def run(ctx, obs):
+    from ..rules import order as _order
+    _order.contracts(ctx, obs, ['util.matrix.indicator'])
+    _order.report(ctx, obs, ['simulation.', 'util.matrix.'])
     from ..rules import sweeps
     sweeps.run(ctx, obs, 'C18')
     nd(ctx, obs)
